@@ -2,7 +2,9 @@ package taskfile
 
 import (
 	"fmt"
+	"maps"
 	"os"
+	"slices"
 
 	"github.com/joho/godotenv"
 
@@ -30,9 +32,11 @@ func Dotenv(vars *ast.Vars, tf *ast.Taskfile, dir string) (*ast.Vars, error) {
 		if err != nil {
 			return nil, fmt.Errorf("error reading env file %s: %w", dotEnvPath, err)
 		}
-		for key, value := range envs {
+		// In sorted order: the values are templated later, in the order in
+		// which they are added, and may refer to each other
+		for _, key := range slices.Sorted(maps.Keys(envs)) {
 			if _, ok := env.Get(key); !ok {
-				env.Set(key, ast.Var{Value: value})
+				env.Set(key, ast.Var{Value: envs[key]})
 			}
 		}
 	}
